@@ -6,8 +6,13 @@
    NumPy primitives are modelled by their documented meaning (np.pad modes,
    np.convolve / np.correlate 'full', basic slicing with negative bounds and a
    step, np.concatenate, np.stack, .T and C-order reshape of 2-D arrays,
-   np.ndindex); the Python code around them is modelled statement by statement. *)
+   np.ndindex); the Python code around them is modelled statement by statement.
+   The integer expressions of that code (filter length and shift, axis
+   normalisation, padding widths, crop bounds, Stack's remainder / frame counts /
+   slice arguments, constructor guard) are NOT written here: they are the g_*
+   functions of gen/PostC15.v, regenerated from post.py on every run. *)
 From Coq Require Import ZArith List Bool Lia.
+From Verif Require Import gen.PostC15.
 Import ListNotations.
 Open Scope Z_scope.
 
@@ -125,6 +130,10 @@ Definition norm_axis (a : Z) (nd : nat) : option nat :=
   if (- n <=? a) && (a <? n) then Some (Z.to_nat (if a <? 0 then a + n else a)) else None.
 (* Python's  a % nd  for nd > 0 *)
 Definition mod_axis (a : Z) (nd : nat) : nat := Z.to_nat (a mod Z.of_nat nd).
+(* the same as written in the code (generated) *)
+Definition deltas_axis (a : Z) (nd : nat) : nat := Z.to_nat (g_axis_mod a (Z.of_nat nd)).
+Definition stack_axis (a : Z) (nd : nat) : nat := Z.to_nat (g_stack_axis_mod a (Z.of_nat nd)).
+Definition stack_time (a : Z) (nd : nat) : nat := Z.to_nat (g_stack_time_mod a (Z.of_nat nd)).
 
 (* ------------------------------------------------------------------ *)
 (** * np.pad *)
@@ -260,8 +269,9 @@ Definition reshape {V} (shape : list Z) (X : tensor V) : result (tensor V) :=
 
 (* __init__: delta_filter = arange(1 + 2W) - W, divided by sum(delta_filter**2);
    kept here as integer numerators  base  over the denominator  den *)
-Definition delta_base (W : Z) : list Z := map (fun i => i - W) (zrange (1 + 2 * W)).
-Definition delta_den (W : Z) : Z := zsum (1 + 2 * W) (fun i => (i - W) * (i - W)).
+Definition delta_base (W : Z) : list Z := map (fun i => i - g_base_shift W) (zrange (g_base_len W)).
+Definition delta_den (W : Z) : Z :=
+  zsum (g_base_len W) (fun i => (i - g_base_shift W) * (i - g_base_shift W)).
 (* _filts[d]: _filts[0] = [1], _filts[d+1] = np.convolve(_filts[d], delta_filter);
    the float filter is  filt W d / (delta_den W)^d  *)
 Fixpoint filt_of (base : list Z) (d : nat) : list Z :=
@@ -278,9 +288,9 @@ Definition cast_out (dt : dtype) (den num : Z) : frac :=
 (* the body of the inner loop for one 1-D slice x:
    np.correlate(np.pad(x, (mo, mo), mode), filt, 'full')[len(filt)-1 : -len(filt)+1] *)
 Definition delta_lane (m : pad_mode) (f : list Z) (x : list Z) : result (list Z) :=
-  let max_offset := (zlen f - 1) / 2 in
-  bind (pad1d m max_offset max_offset x) (fun xp =>
-  Ok (pyslice (zlen f - 1) (- zlen f + 1) (correlate_full xp f))).
+  let lf := zlen f in
+  bind (pad1d m (g_pad_before lf) (g_pad_after lf) x) (fun xp =>
+  Ok (pyslice (g_crop_lo lf) (g_crop_hi lf) (correlate_full xp f))).
 
 (* features[feat_slice]: the 1-D slice along axis ax at the other indices oi *)
 Definition lane (X : tensor Z) (ax : nat) (oi : list Z) : list Z :=
@@ -325,7 +335,7 @@ Record deltas_cfg := mkDeltas {
 Definition deltas_apply (c : deltas_cfg) (X : tensor Z) (axis : Z) : result (tensor frac) :=
   let nd := length (tsh X) in
   if Nat.eqb nd 0 then Err EValue else
-  let ax := mod_axis axis nd in
+  let ax := deltas_axis axis nd in
   let W := context_window c in
   bind (mapM (fun d => delta_block (dpad c) X ax (filt W d) (delta_den W ^ Z.of_nat d))
              (seq 1 (num_deltas c))) (fun blocks =>
@@ -347,15 +357,18 @@ Definition stack_2d (ta : nat) (T nT nF : Z) (X : tensor Z) : result (tensor Z) 
 
 (* the N-D branch: concatenate([X[.., i:T:n, ..] for i in range(n)], axis) *)
 Definition stack_nd (ax ta : nat) (T n : Z) (X : tensor Z) : result (tensor Z) :=
-  concatenate 0 (map (fun i => slice_axis ta i T n X) (zrange n)) (Z.of_nat ax).
+  concatenate 0 (map (fun i => slice_axis ta (g_stack_slice_start i T n) (g_stack_slice_stop i T n)
+                                          (g_stack_slice_step i T n) X)
+                     (zrange (g_stack_count n))) (Z.of_nat ax).
 
 (* if self._pad_mode is not None: rem = T % n; if rem: np.pad(..., (0, n - rem)); T += n - rem *)
 Definition stack_pad (c : stack_cfg) (X : tensor Z) (ta : nat) (T : Z) : result (tensor Z * Z) :=
   let n := num_vectors c in
   match spad c with
-  | Some m => let rem := T mod n in
+  | Some m => let rem := g_stack_rem T n in
               if rem =? 0 then Ok (X, T)
-              else bind (pad_axis m ta 0 (n - rem) X) (fun X' => Ok (X', T + (n - rem)))
+              else bind (pad_axis m ta (g_stack_pad_before n rem) (g_stack_pad_after n rem) X)
+                        (fun X' => Ok (X', g_stack_T_padded T n rem))
   | None => Ok (X, T)
   end.
 
@@ -363,19 +376,20 @@ Definition stack_pad (c : stack_cfg) (X : tensor Z) (ta : nat) (T : Z) : result 
 Definition stack_apply (c : stack_cfg) (X : tensor Z) (axis : Z) : result (tensor Z) :=
   let nd := length (tsh X) in
   if Nat.eqb nd 0 then Err EZeroDiv else
-  let ax := mod_axis axis nd in
-  let ta := mod_axis (time_axis c) nd in
+  let ax := stack_axis axis nd in
+  let ta := stack_time (time_axis c) nd in
   if Nat.eqb ax ta then Err ERuntime else
   let n := num_vectors c in
   let T := nth ta (tsh X) 0 in
   let F := nth ax (tsh X) 0 in
   bind (stack_pad c X ta T) (fun XT =>
   let '(X1, T1) := XT in
-  let nT := T1 / n in
-  let nF := F * n in
-  let T2 := nT * n in
+  let nT := g_stack_nT T1 n in
+  let nF := g_stack_nF F n in
+  let T2 := g_stack_T2 nT n in
   if Nat.eqb nd 2 then stack_2d ta T2 nT nF X1 else stack_nd ax ta T2 n X1).
-Definition stack_ctor_ok (c : stack_cfg) : bool := 1 <=? num_vectors c.
+(* Stack.__init__ raises ValueError when this is false *)
+Definition stack_ctor_ok (c : stack_cfg) : bool := negb (g_stack_reject (num_vectors c)).
 
 (* ------------------------------------------------------------------ *)
 (** * Flat input/output for evaluation *)
